@@ -334,7 +334,7 @@ class Ctx:
 class Interp:
     def __init__(self, ctx, contracts=None, loop_specs=None, models=None, target=None):
         from . import models as _models
-        from . import arrays as _arrays, nparr as _nparr, dt as _dt, layout as _layout  # noqa  (register hooks)
+        from . import arrays as _arrays, nparr as _nparr, dt as _dt, layout as _layout, recarr as _recarr  # noqa  (register hooks)
         self.ctx = ctx
         self.contracts = contracts or {}     # (relpath, qual) -> ModularContract
         self.loop_specs = loop_specs or {}   # (relpath, qual) -> {ordinal: LoopSpec}
@@ -1058,6 +1058,10 @@ class Interp:
         specs = self.loop_specs.get(self.func_key(frame.func))
         if not specs:
             return None
+        # keys that survive harmless edits come first: 'iter:<text>' matches a `for` whose iterable, unparsed, contains the text
+        for k, v in specs.items():
+            if isinstance(k, str) and k.startswith('iter:') and isinstance(st, ast.For) and k[5:] in ast.unparse(st.iter):
+                return v
         return specs.get(self.loop_ordinal(st, frame))
 
     def x_While(self, st, frame):
@@ -1088,6 +1092,8 @@ class Interp:
         spec = self.loop_spec(st, frame)
         if spec is not None:
             return self.models.symbolic_for(self, st, frame, it, spec)
+        if self.models.hook('map_append_for', self, st, frame, it):
+            return
         items = self.iterate(it, frame)
         broke = False
         for x in items:
@@ -1137,6 +1143,9 @@ class Interp:
         ctx = self.ctx
         name = '%s/loop#%s' % (frame.func.qual, self.loop_ordinal(st, frame))
         env = LoopEnv(self, frame)
+        if step is not None:
+            hid = sorted(n for n in step[0] if n.startswith(('__it_', '__idx_')))
+            env.index_name = hid[0] if hid else None
         ginit = spec.ghost_init(env) if callable(spec.ghost_init) else (spec.ghost_init or {})
         for g, v in ginit.items():
             ctx.ghost[g] = v
@@ -1168,6 +1177,12 @@ class Interp:
         mods = self.assigned_names(st.body)
         if step is not None:
             mods |= step[0]
+        aliased = sorted(self.mutated_names(st.body) & self.assigned_names(st.body))
+        if aliased and spec.havoc is None:
+            # `h = outer[...]; h[...] = v` inside the loop: the store goes through a name bound IN the loop, i.e. possibly to an
+            # alias of an outer object that the name-based havoc below would miss.  Sound only when the specification takes over
+            # the havoc of whatever those names may alias (LoopSpec.havoc).
+            raise Unsupported('cut-point loop stores through %s, bound inside the loop (possible alias of an outer object): LoopSpec.havoc required' % ', '.join(aliased))
         for nm in sorted(mods):
             if nm in frame.locals:
                 frame.locals[nm] = self.havoc_like(frame.locals[nm], nm)
@@ -1273,6 +1288,10 @@ class Interp:
             return tuple(self.havoc_like(x, name) for x in v)
         if hasattr(v, 'havoc_like'):
             return v.havoc_like(self, name)
+        if isinstance(v, str) or getattr(v, 'is_recarr', False):
+            # a local the loop rebinds (a key, a view of a record): unknown at the loop head -- any USE before it is bound again
+            # is unsupported (Opaque never satisfies a clause)
+            return Opaque('loop-modified %s' % name)
         raise Unsupported('cannot havoc loop-modified variable %s of type %s' % (name, type(v).__name__))
 
     # ---- iteration -------------------------------------------------------
@@ -1790,9 +1809,15 @@ class LoopEnv:
         return k in self.frame.locals
 
     def __getattr__(self, k):
-        if k in ('interp', 'frame'):
+        if k in ('interp', 'frame', 'index_name'):
             raise AttributeError(k)
         return self.interp.load_name(k, self.frame)
+
+    @property
+    def it(self):
+        """the iteration counter of THIS loop (range loop: the value the loop variable takes next; array / zip / enumerate
+        loop: the number of elements consumed) -- independent of how the loop variable is called in the source"""
+        return self.interp.load_name(self.index_name, self.frame)
 
     @property
     def ghost(self):
